@@ -273,7 +273,30 @@ func vhC10[G any](cfg vhConfig) {
 	vReach("accepted")
 	var g G
 	root := vhGrammar(reflect.TypeOf(g), cfg.unions)
-	vhSameAST(vhActual(root, reflect.ValueOf(a1).Elem()), vhActual(root, reflect.ValueOf(a2).Elem()), "C10")
+	// a []lexer.Token capture is the run from its first to its last matched
+	// token (C01), so elided tokens lying inside the run belong to it: the
+	// two runs are compared without them
+	with := vhActual(root, reflect.ValueOf(a1).Elem())
+	vhDropElidedFromRuns(with, toks, elide)
+	vhSameAST(with, vhActual(root, reflect.ValueOf(a2).Elem()), "C10")
+}
+
+func vhDropElidedFromRuns(v *vnode, toks []lexer.Token, elide map[lexer.TokenType]bool) {
+	for i := range v.fields {
+		f := &v.fields[i]
+		if f.kind == fToks {
+			var kept []int
+			for _, idx := range f.toks {
+				if !elide[toks[idx].Type] {
+					kept = append(kept, idx)
+				}
+			}
+			f.toks = kept
+		}
+		for _, sub := range f.subs {
+			vhDropElidedFromRuns(sub, toks, elide)
+		}
+	}
 }
 
 // vhUntypedLiterals lists the texts of the untyped literals of a grammar.
